@@ -4196,6 +4196,82 @@ def run_transl(ctx):
     ctx.correspond("transl", pairs)
 
 
+# ------------------------------------------------------------------------------------------------
+# history / object-identity probes (harness/histories.py): HDAP PDUs of the four services, HRNP, HSTRP with options, RadioIP
+def ENTRY_POINTS():
+    import histories as H
+
+    load()
+    gens = {"RRS": gen_rrs, "LP": gen_lp, "TMP": gen_tmp, "RCP": gen_rcp}
+
+    def view(q):
+        b = call(q.as_bytes) if hasattr(q, "as_bytes") else None
+        return {"as_bytes": repr(b) if isinstance(b, Exc) else H.canon(b), "fields": H.canon(q)}
+
+    ser = lambda o: o.as_bytes()  # noqa: E731
+    eps = []
+
+    def pdu(rng, svc=None):
+        for _ in range(20):
+            c = gens[svc or rng.choice(sorted(gens))](rng)
+            p = call(c.build)
+            if not isinstance(p, Exc):
+                return p
+        raise ValueError("no PDU")
+
+    for svc in sorted(gens):
+        def kw(rng, svc=svc):
+            c = gens[svc](rng)
+            return ({k: realise(v) for k, v in c.kw.items()},)
+
+        def new(kwargs, svc=svc):
+            return Case.CLS[svc]()(**kwargs)
+
+        def wire(rng, svc=svc):
+            b = call(pdu(rng, svc).as_bytes)
+            return (b if isinstance(b, bytes) else b"\x02\x00\x00\x00\x00\x00\x03",)
+
+        eps.append(H.EP(f"hdap.{svc}.build", new, kw, kind="build", serialise=ser, canon=view, group="hdap"))
+        eps.append(H.EP(f"hdap.{svc}.from_bytes", L.hdap.HDAP.from_bytes, wire, kind="parse", serialise=ser, canon=view, group="hdap", domain="hdap-wire"))
+
+    def hrnp_args(rng):
+        p = pdu(rng) if rng.random() < 0.8 else None
+        HR = L.hrnp
+        return (p, HR.HRNPOpcodes.DATA if p is not None else rng.choice([o for o in HR.HRNPOpcodes if o != HR.HRNPOpcodes.DATA]),
+                pick_int(rng, 255, (0x20,)), pick_int(rng, 255, (0x10,)), pick_int(rng, 255), pick_int(rng, 65535))
+
+    def hrnp_new(data, opcode, source, destination, block_number, packet_number):
+        return L.hrnp.HRNP(data=data, opcode=opcode, source=source, destination=destination, block_number=block_number, packet_number=packet_number)
+
+    def hstrp_args(rng):
+        p = pdu(rng) if rng.random() < 0.8 else None
+        k = rng.choice([0, 0, 1, 2, 3])
+        o = gen_options(rng, k)
+        return (gen_pkt_type(rng, k, p is not None), pick_int(rng, 65535), o, p, rng.choice([0, 0, 1, 255]))
+
+    def hstrp_new(pkt_type, sn, options, payload, version):
+        return L.hstrp.HSTRP(pkt_type=pkt_type, sn=sn, options=options, payload=payload, version=version)
+
+    def wire_of(args, new):
+        def make(rng):
+            b = call(lambda: new(*args(rng)).as_bytes())
+            return (b,) if isinstance(b, bytes) else (b"\x00",)
+        return make
+
+    eps.append(H.EP("hrnp.build", hrnp_new, hrnp_args, kind="build", serialise=ser, canon=view, group="hrnp", draws=2))
+    eps.append(H.EP("hrnp.from_bytes", L.hrnp.HRNP.from_bytes, wire_of(hrnp_args, hrnp_new), kind="parse", serialise=ser, canon=view, group="hrnp"))
+    eps.append(H.EP("hstrp.build", hstrp_new, hstrp_args, kind="build", serialise=ser, canon=view, group="hstrp", draws=3))
+    eps.append(H.EP("hstrp.from_bytes", L.hstrp.HSTRP.from_bytes, wire_of(hstrp_args, hstrp_new), kind="parse", serialise=ser, canon=view, group="hstrp", draws=2))
+    eps.append(H.EP("hstrp.options.from_bytes", L.hstrp.HSTRPOptions.from_bytes, lambda rng: (gen_options(rng, rng.choice([1, 2, 3])).as_bytes(),), kind="parse", canon=view, group="hstrp"))
+
+    def ip4(rng):
+        return (bytes(rng.choice([10, 0, 255, rng.randrange(256)]) for _ in range(4)),)
+
+    eps.append(H.EP("radio_ip.from_bytes", L.RadioIP.from_bytes, ip4, kind="parse", serialise=ser, canon=view, group="ip", draws=2))
+    eps.append(H.EP("radio_ip.from_bytes(little)", lambda b: L.RadioIP.from_bytes(b, "little"), ip4, kind="parse", canon=view, group="ip", domain="ip"))
+    return eps
+
+
 def run(ctx):
     load()
     rng = ctx.rng
@@ -4465,6 +4541,9 @@ def run(ctx):
             if L.hdap.HDAP.get_hdap_checksum(d)[0] != spec_hdap_checksum(d):
                 ctx.fail("frame-checksum", {"layer": "hdap", "checked": d.hex()}, "get_hdap_checksum differs from the independent formula")
         ctx.correspond("pdu build/parse (alone, HRNP, HSTRP), mutated parsers, checksums", pairs)
+    import histories
+
+    histories.run(ctx, ENTRY_POINTS, max_eps=16)
     verify_held(ctx, held)
 
 
@@ -4491,6 +4570,10 @@ def replay(obj):
     load()
     f = obj.get("failure") or {}
     inp = f.get("input") or {}
+    if str(f.get("kind", "")).startswith("history:"):
+        import histories
+
+        return histories.replay(inp, ENTRY_POINTS)
     print(obj.get("type"), "-", f.get("what"))
     print("input:", inp)
     still = 0
